@@ -57,7 +57,7 @@ def gen_plan(rng, tier, run):
             "fseed": rng.randrange(1 << 30),
             "enum": "full" if (tier == "thorough" and rng.random() < 0.12) else "reduced",
             "double": (tier == "thorough" and rng.random() < 0.3),
-            "files": []}
+            "files": [], "plugins": {}}
     if rng.random() < 0.25:
         plan["opts"].append("-P")
     n = rng.randint(1, 4) if mode == "json" else 1
@@ -76,6 +76,18 @@ def gen_plan(rng, tier, run):
             data = pelgen.build(r)
             f["junk"] = common.gen_junk(rng, data, pelgen.section_offsets(r), kinds=["torn", "torn", "flip", "lost", "garbage"])
         plan["files"].append(f)
+        # third-party parser modules for this PEL's sections, some of whose calls fail
+        if rng.random() < 0.35:
+            from checks import plug
+            for sec in r["sections"]:
+                if sec["kind"] in ("ud", "ed"):
+                    c = pelgen.section_creator(r, sec)
+                    if not (c == "O" and sec["comp"] == 0x2000):
+                        m = plug.ud_module(c, sec["comp"])
+                        if m not in plug.SHIPPED:
+                            plan["plugins"][m] = {"type": "ud", "weights": {"ok": 2, "raise": 2, "none": 1, "importerror": 1}, "salt": rng.randrange(1 << 30)}
+                elif sec["kind"] == "src" and r["creator"] != "O":
+                    plan["plugins"][plug.src_module(r["creator"])] = {"type": "src", "weights": {"ok": 2, "raise": 1, "none": 1}, "salt": rng.randrange(1 << 30)}
         # left-overs of an earlier run in the output directory: a partial / stale / foreign output for this input
         if mode == "json" and rng.random() < 0.3:
             f["pre_out"] = {"kind": rng.choice(["partial", "partial", "stale", "garbage", "empty"]), "cut": rng.randrange(1, 400),
@@ -274,7 +286,9 @@ def execute(plan):
     violations = []
     evals = events = 0
     h = hashlib.sha256()
-    with World() as w:
+    with World(plugins=plan.get("plugins") or None) as w:
+        if plan.get("plugins"):
+            bump("plans_with_fake_plugins")
         w.fresh_per_run = bool(plan.get("fresh"))
         bump("process_model:fresh" if w.fresh_per_run else "process_model:shared")
         ref0, ref0_snap = run_once(w, plan, originals, None, reference=True)
